@@ -358,7 +358,8 @@ class WorldGen:
             rb[sub_] = [base]
             L.append("newreg|%d|%d" % (sub_, base))
             o = rnd.choice(list(objs))
-            x, p, nm = rnd.randint(1, n), rnd.choice(PROV), rnd.choice(NAMES)
+            self.vid += 1
+            x, p, nm = rnd.randint(1, n), rnd.choice(PROV), "e%d" % self.vid       # a name nothing else is registered under
             L.append("dp|%d|%d" % (o, x))
             eps = ["lookup|%d|o%d|%d|%s" % (sub_, o, p, nm), "lookup1|%d|o%d|%d|%s" % (sub_, o, p, nm), "lookupAll|%d|o%d|%d" % (sub_, o, p),
                    "names|%d|o%d|%d" % (sub_, o, p), "qadapter|%d|o%d|%d|%s|q" % (sub_, o, p, nm), "qadapter|%d|o%d|%d|%s|h" % (sub_, o, p, nm),
@@ -639,6 +640,53 @@ def replay_world(prop, rep, path):
     for l, o in zip(script, out):
         print("%-44s impl: %s" % (l, o))
     if any(("-STALE" in o or "TWIN-DIFF" in o or o.startswith("err")) for o in out):
+        print("VIOLATION property=%s replay=%s" % (prop, path))
+        return 1
+    print("replay passes on the current tree")
+    return 0
+
+
+REENTRY_EPS = ["lookup", "lookup1", "lookupAll", "subscriptions", "queryAdapter", "adapter_hook", "queryMultiAdapter"]
+
+
+def reentry_stage(chk, eps, scenarios=("stale", "stale-pre", "midwalk", "shrink")):
+    """the re-entrancy scenarios of the C11 executor that end in a CACHED wrong answer (an answer computed across a
+    mutation must not be served afterwards): what C05 / C07 / C08 demand of the caches, beyond sequential histories"""
+    from .. import core
+    lines = []
+    for fl in ("push", "verifying"):
+        for ep in eps:
+            for sc in scenarios:
+                if sc == "midwalk" and ep in ("lookupAll", "subscriptions"):
+                    continue
+                lines.append("%s %s %s" % (sc, fl, ep))
+    fails = []
+    for m in ("c", "py"):
+        try:
+            out = core.run_impl("reentry", lines, m)
+        except core.ImplBroken as e:
+            fails.append(dict(mode=m, script=[], message="re-entrancy scenarios could not be executed: %s" % str(e)[-300:], observed="", layer="reentry"))
+            continue
+        chk.count("reentry_scenarios_%s" % m, len(lines))
+        for l, o in zip(lines, out):
+            if o != "ok":
+                fails.append(dict(mode=m, script=[l], message="%s -> %s" % (l, o), observed=o, layer="reentry"))
+                break
+    return fails
+
+
+def report_reentry(chk, fails):
+    for f in fails[:1]:
+        chk.violation("%s [mode=%s]" % (f["message"], f["mode"]),
+                      dict(kind="schedule", mode=f["mode"], script=f["script"], observed=f["observed"], expected_by="spec", minimised=True, layer="reentry"))
+
+
+def replay_reentry(prop, rep, path):
+    from .. import core
+    out = core.run_impl("reentry", rep["script"], rep.get("mode", "c"))
+    for l, o in zip(rep["script"], out):
+        print("%-44s impl: %s" % (l, o))
+    if any(o != "ok" for o in out):
         print("VIOLATION property=%s replay=%s" % (prop, path))
         return 1
     print("replay passes on the current tree")
